@@ -225,9 +225,40 @@ static bool has_class(const RunResult& r, const std::string& prop, const std::st
     return false;
 }
 
+static std::string classify_crash(const std::string& err, int status)
+{
+    size_t q = err.find("runtime error: ");
+    if (q != std::string::npos)
+    {
+        size_t e = err.find('\n', q);
+        return one_line(err.substr(q + 15, e == std::string::npos ? std::string::npos : e - q - 15));
+    }
+    size_t p = err.find("SUMMARY: ");
+    if (p != std::string::npos)
+    {
+        size_t e = err.find('\n', p);
+        std::string l = err.substr(p + 9, e == std::string::npos ? std::string::npos : e - p - 9);
+        // "AddressSanitizer: heap-buffer-overflow /path/file.cpp:12:3 in func" -> drop the path:line (drifts with edits)
+        std::istringstream is(l);
+        std::string tool, kind, where, in, func;
+        is >> tool >> kind >> where >> in;
+        std::getline(is, func);
+        return one_line(tool + " " + kind + " in" + func);
+    }
+    size_t g = err.find("Assertion");
+    if (g != std::string::npos)
+    {
+        size_t e = err.find('\n', g);
+        return one_line(err.substr(g, e == std::string::npos ? std::string::npos : e - g));
+    }
+    if (WIFSIGNALED(status)) return "killed by signal " + std::to_string(WTERMSIG(status));
+    return "abnormal exit status " + std::to_string(status);
+}
+
 struct Shrinker
 {
     std::string prop, cls;
+    std::string crash_class;
     bool crash_mode = false;   // violation = the child dies
     int budget = 300;
     int runs = 0;
@@ -236,7 +267,7 @@ struct Shrinker
     {
         runs++;
         ChildOutcome o = run_in_child(s);
-        if (crash_mode) return o.crashed;
+        if (crash_mode) return o.crashed && (crash_class.empty() || classify_crash(o.stderr_tail, o.status) == crash_class);
         return o.ok && has_class(o.res, prop, cls);
     }
 
@@ -776,28 +807,6 @@ int main(int argc, char** argv)
     std::vector<std::string> violation_lines, known_lines;
     int64_t n_viol_reported = 0;
 
-    // crashes: for C10 they are the violation; elsewhere an infrastructure problem unless reproducible
-    if (!crashed_runs.empty())
-    {
-        int64_t idx = crashed_runs[0];
-        RunRec& rr = B.recs[size_t(idx)];
-        Script s = generate_script(prop, rr.seed, tier);
-        ChildOutcome again = run_in_child(s);
-        if (!again.crashed)
-        {
-            printf("INFRA: run index %ld seed %lu crashed in the batch but not when re-run alone\n%s\n", (long)idx, (unsigned long)rr.seed, rr.crash_text.substr(0, 2000).c_str());
-            exit_code = 2;
-        }
-        else if (prop != "C10")
-        {
-            // a crash of the engine under a well-formed session is C10's business; report it here as infrastructure
-            // problem only if it is not a sanitizer / signal death inside engine code
-            printf("NOTE: %ld runs crashed (first: seed %lu). A crash is decided by the C10 check; stderr follows\n%s\n", (long)crashed_runs.size(), (unsigned long)rr.seed,
-                   again.stderr_tail.substr(0, 3000).c_str());
-            counters["runs_crashed"] += int64_t(crashed_runs.size());
-        }
-    }
-
     std::string replay_dir = g_verif_dir + "/replays/" + prop;
     for (auto& kv : by_class)
     {
@@ -864,79 +873,54 @@ int main(int argc, char** argv)
         n_viol_reported++;
     }
 
-    // C10: crashes are violations
-    if (prop == "C10" && !crashed_runs.empty() && exit_code != 2)
+    // crashed runs: the engine died under a well-formed session (memory error, sanitizer report, abort).
+    // For C10 that is the violation itself; for the other properties the outstanding request was never answered.
+    if (!crashed_runs.empty())
     {
-        int64_t idx = crashed_runs[0];
-        RunRec& rr = B.recs[size_t(idx)];
-        Script s = generate_script(prop, rr.seed, tier);
-        ChildOutcome c1 = run_in_child(s);
-        // classify by the sanitizer's summary line
-        std::string cls = "crash";
+        std::map<std::string, std::vector<int64_t>> crash_classes;
+        std::map<std::string, std::string> crash_text;
+        for (size_t ci = 0; ci < crashed_runs.size() && ci < 48; ++ci)
         {
-            size_t p = c1.stderr_tail.find("SUMMARY:");
-            if (p != std::string::npos)
+            RunRec& rr = B.recs[size_t(crashed_runs[ci])];
+            Script s = generate_script(prop, rr.seed, tier);
+            ChildOutcome c1 = run_in_child(s);
+            if (!c1.crashed)
             {
-                size_t e = c1.stderr_tail.find('\n', p);
-                cls = one_line(c1.stderr_tail.substr(p, e == std::string::npos ? std::string::npos : e - p));
+                printf("INFRA: run index %ld seed %lu crashed in the batch but not when re-run alone\n%s\n", (long)rr.index, (unsigned long)rr.seed, rr.crash_text.substr(0, 2000).c_str());
+                exit_code = 2;
+                continue;
             }
-            else
+            std::string cls = classify_crash(c1.stderr_tail, c1.status);
+            crash_classes[cls].push_back(rr.index);
+            if (!crash_text.count(cls)) crash_text[cls] = c1.stderr_tail.substr(0, 2500);
+        }
+        for (auto& kv : crash_classes)
+        {
+            const std::string& cls = kv.first;
+            RunRec& rr = B.recs[size_t(kv.second[0])];
+            Violation v{prop, prop == "C10" ? "memory-error" : "engine-crash", cls};
+            if (const Finding* f = match_finding(findings, v))
             {
-                size_t q = c1.stderr_tail.find("runtime error:");
-                if (q != std::string::npos)
-                {
-                    size_t a = c1.stderr_tail.rfind('\n', q);
-                    size_t e = c1.stderr_tail.find('\n', q);
-                    cls = one_line(c1.stderr_tail.substr(a == std::string::npos ? 0 : a + 1, e - (a == std::string::npos ? 0 : a + 1)));
-                }
+                known_lines.push_back("KNOWN-FINDING: property=" + prop + " class=" + v.cls + " " + cls + " (" + std::to_string(kv.second.size()) + " runs) " + f->text);
+                counters["known_finding_runs"] += int64_t(kv.second.size());
+                continue;
             }
-        }
-        Violation v{prop, "memory-error", cls};
-        if (const Finding* f = match_finding(findings, v))
-        {
-            known_lines.push_back("KNOWN-FINDING: property=C10 " + cls + " (" + std::to_string(crashed_runs.size()) + " runs) " + f->text);
-        }
-        else
-        {
+            Script s = generate_script(prop, rr.seed, tier);
             Script minimal = s;
             if (!no_shrink)
             {
                 Shrinker sh;
                 sh.crash_mode = true;
+                sh.crash_class = cls;
                 sh.budget = 60;
                 minimal = sh.shrink(s);
             }
             mkdirs(replay_dir);
             std::string path = replay_dir + "/crash_" + std::to_string(rr.seed) + ".replay";
-            write_file(path, replay_text(minimal, prop, "memory-error", cls, 0, true));
-            printf("violation class=memory-error runs=%ld first_seed=%lu\n  %s\n%s\n", (long)crashed_runs.size(), (unsigned long)rr.seed, cls.c_str(), c1.stderr_tail.substr(0, 2500).c_str());
-            violation_lines.push_back("VIOLATION property=C10 replay=" + path);
-            n_viol_reported++;
-        }
-        // further crash classes: re-run each crashed seed (bounded) and report distinct summaries
-        std::set<std::string> seen_cls = {cls};
-        for (size_t ci = 1; ci < crashed_runs.size() && ci < 40; ++ci)
-        {
-            RunRec& r2 = B.recs[size_t(crashed_runs[ci])];
-            Script s2 = generate_script(prop, r2.seed, tier);
-            ChildOutcome c2 = run_in_child(s2);
-            if (!c2.crashed) continue;
-            std::string cls2 = "crash";
-            size_t p = c2.stderr_tail.find("SUMMARY:");
-            if (p != std::string::npos) { size_t e = c2.stderr_tail.find('\n', p); cls2 = one_line(c2.stderr_tail.substr(p, e == std::string::npos ? std::string::npos : e - p)); }
-            else
-            {
-                size_t q = c2.stderr_tail.find("runtime error:");
-                if (q != std::string::npos) { size_t a = c2.stderr_tail.rfind('\n', q); size_t e = c2.stderr_tail.find('\n', q); size_t b0 = a == std::string::npos ? 0 : a + 1; cls2 = one_line(c2.stderr_tail.substr(b0, e - b0)); }
-            }
-            if (!seen_cls.insert(cls2).second) continue;
-            Violation v2{prop, "memory-error", cls2};
-            if (const Finding* f = match_finding(findings, v2)) { known_lines.push_back("KNOWN-FINDING: property=C10 " + cls2 + " " + f->text); continue; }
-            std::string path = replay_dir + "/crash_" + std::to_string(r2.seed) + ".replay";
-            mkdirs(replay_dir);
-            write_file(path, replay_text(s2, prop, "memory-error", cls2, 0, true));
-            printf("violation class=memory-error first_seed=%lu\n  %s\n", (unsigned long)r2.seed, cls2.c_str());
-            violation_lines.push_back("VIOLATION property=C10 replay=" + path);
+            write_file(path, replay_text(minimal, prop, v.cls, cls, 0, true));
+            printf("violation class=%s runs=%ld first_seed=%lu minimised_ops=%zu (from %zu)\n  %s\n%s\n", v.cls.c_str(), (long)kv.second.size(), (unsigned long)rr.seed, minimal.ops.size(), s.ops.size(),
+                   cls.c_str(), crash_text[cls].c_str());
+            violation_lines.push_back("VIOLATION property=" + prop + " replay=" + path);
             n_viol_reported++;
         }
     }
@@ -1039,3 +1023,8 @@ static int64_t default_runs(const std::string& prop, const std::string& tier)
     if (prop == "C19") return q ? 600 : 15000;
     return 100;
 }
+
+#if defined(VERIF_ASAN)
+extern "C" __attribute__((used)) const char* __asan_default_options() { return "detect_leaks=0:exitcode=77:allocator_may_return_null=1:detect_stack_use_after_return=0"; }
+extern "C" __attribute__((used)) const char* __ubsan_default_options() { return "print_stacktrace=1:halt_on_error=1"; }
+#endif
